@@ -102,6 +102,15 @@ pub fn alphabet(full: bool) -> Vec<Letter> {
   v.push(l("dma-start", &[0x3E, 0xC1, 0xE0, 0x46, 0x18, 0x00]));
   // routine copied to WRAM (C400) and called there: interpreter path inside a jit build
   v.push(l("wram-code", &[0x21, 0x60, 0x0E, 0x11, 0x00, 0xC4, 0x06, 0x0C, 0x2A, 0x12, 0x13, 0x05, 0x20, 0xFA, 0x21, 0x30, 0xC0, 0xCD, 0x00, 0xC4]));
+  // a three-byte routine (LD A,imm; RET) written into high RAM / work RAM and called there; the
+  // two variants put different code at the same address, so a program using both runs RAM code
+  // that has been rewritten since it was last executed
+  for imm in [0x11u8, 0x22] {
+    v.push(l(&format!("hram-imm{:02x}", imm), &[0x21, 0x90, 0xFF, 0x36, 0x3E, 0x2C, 0x36, imm, 0x2C, 0x36, 0xC9, 0xCD, 0x90, 0xFF, 0xEA, 0x03, 0xC1]));
+  }
+  for imm in [0x11u8, 0x22] {
+    v.push(l(&format!("wram-imm{:02x}", imm), &[0x21, 0x80, 0xC4, 0x36, 0x3E, 0x2C, 0x36, imm, 0x2C, 0x36, 0xC9, 0xCD, 0x80, 0xC4, 0xEA, 0x04, 0xC1]));
+  }
   // bank switch + far call
   // (4 = the bank count of the image: reduced to bank 0, whose first bytes are INC H; RET)
   for k in vec![1u8, 2, 3, 4] {
